@@ -8,6 +8,7 @@ import (
 	tls "github.com/refraction-networking/utls"
 	"github.com/refraction-networking/utls/zz_verif/refsrv"
 	"github.com/refraction-networking/utls/zz_verif/simnet"
+	"github.com/refraction-networking/utls/zz_verif/simrand"
 	"github.com/refraction-networking/utls/zz_verif/simrt"
 	"github.com/refraction-networking/utls/zz_verif/wire"
 )
@@ -452,6 +453,22 @@ func runC18(c *Ctx) {
 		stratum = c.Run / 2
 	}
 	w := c.NewWorld(simrt.Config{})
+	// the random source of the world's connections: the ambient one, or a Config.Rand reader that
+	// returns legal short reads (fewer bytes than asked for, no error)
+	var rs *simrand.Stream
+	chunkMode := 0
+	if ch.Bool(30, "config-rand") {
+		rs = simrand.NewStream(ch.U64("config-rand-seed"))
+		chunkMode = []int{0, 1, 5, 16, 31}[ch.Pick(5, "rand-chunk")]
+		rs.MaxChunk = chunkMode
+	}
+	negCfg := func() *tls.Config {
+		cfg := negCfg()
+		if rs != nil {
+			cfg.Rand = rs
+		}
+		return cfg
+	}
 	f := PickFingerprint(ch, stratum, negCfg)
 	dry, err := DryHello(negCfg(), f.IDI.ID, f.Spec())
 	if err != nil {
@@ -459,7 +476,7 @@ func runC18(c *Ctx) {
 		return
 	}
 	of := OfferOf(dry, 0)
-	c.R.Class = fmt.Sprintf("%s/%s", f.Kind, f.IDI.Name)
+	c.R.Class = fmt.Sprintf("%s/%s rand=%v/%d", f.Kind, f.IDI.Name, rs != nil, chunkMode)
 	var hellos []*wire.ClientHello
 	hellos = append(hellos, dry)
 	shareIdx := 0
@@ -478,9 +495,36 @@ func runC18(c *Ctx) {
 				plan.Group = g
 				sel = g
 			}
+			if g == 0x6399 && has16(of.Groups, g) {
+				// X25519Kyber768Draft00: only the reference server implements its server side
+				peer, sel = PeerRef, g
+				plan.Peer = PeerRef
+			}
 		}
 		scfg, stdcfg := ServerConfigs(plan)
-		sp := &ConnSpec{Name: fmt.Sprintf("c%d", i), ID: f.IDI.ID, Spec: f.Spec(), CCfg: negCfg(), Peer: peer, SCfg: scfg, StdCfg: stdcfg, Payload: [][]byte{[]byte("ping")}}
+		var rcfg *refsrv.Config
+		if peer == PeerRef {
+			rcfg = refCfg()
+			rcfg.NextProtos = of.ALPN
+			rcfg.Byz.KyberDraft = true
+		}
+		sp := &ConnSpec{Name: fmt.Sprintf("c%d", i), ID: f.IDI.ID, Spec: f.Spec(), CCfg: negCfg(), Peer: peer, SCfg: scfg, StdCfg: stdcfg, RefCfg: rcfg, Payload: [][]byte{[]byte("ping")}}
+		// the hello may be built explicitly first (with or without session), once or twice: the keys
+		// retained must still be those of the shares that go out
+		if pb := ch.Pick(5, "prebuild"); pb > 0 && f.IDI.ID != tls.HelloGolang {
+			sp.Prep = func(u *tls.UConn) error {
+				if pb == 1 || pb == 3 {
+					if err := u.BuildHandshakeStateWithoutSession(); err != nil {
+						return err
+					}
+				}
+				if pb == 2 || pb == 3 {
+					return u.BuildHandshakeState()
+				}
+				return nil
+			}
+			c.R.Class += fmt.Sprintf(" prebuild=%d", pb)
+		}
 		o := RunConn(c, w, sp)
 		obs := ObserveHellos(o.Link)
 		if obs.CHErr != nil {
@@ -523,6 +567,7 @@ func runC18(c *Ctx) {
 	seenShare := map[string]int{}
 	seenRand := map[string]int{}
 	seenSid := map[string]int{}
+	seenChunk := map[string]int{}
 	for i, h := range hellos {
 		for _, k := range h.KeyShares {
 			if wire.IsGREASE(k.Group) {
@@ -541,6 +586,15 @@ func runC18(c *Ctx) {
 			c.Violate("client-random-repeats "+f.Kind, "%s: hellos %d and %d", c.R.Class, j, i)
 		}
 		seenRand[string(h.Random)] = i
+		// no 8-byte window of a client random may be shared by two connections either (chance 2^-64
+		// per pair for a working source; a reader's short reads are no excuse)
+		for off := 0; off+8 <= len(h.Random); off += 8 {
+			key := fmt.Sprintf("%d:%x", off, h.Random[off:off+8])
+			if j, dup := seenChunk[key]; dup && !sameConn(hellos, i, j) && !bytes.Equal(hellos[i].Random, hellos[j].Random) {
+				c.Violate(fmt.Sprintf("client-random-partly-repeats %s chunk=%d", f.Kind, chunkMode), "%s: hellos %d and %d share bytes %d..%d of their randoms (%x)", c.R.Class, j, i, off, off+8, h.Random[off:off+8])
+			}
+			seenChunk[key] = i
+		}
 		if len(h.SessionID) > 0 {
 			if j, dup := seenSid[string(h.SessionID)]; dup && !sameConn(hellos, i, j) {
 				c.Violate("session-id-repeats "+f.Kind, "%s: hellos %d and %d", c.R.Class, j, i)
